@@ -16,9 +16,9 @@
     any *-homomorphism (Q,+) -> unit-modulus elements of K ([character]); the ..._complex theorems
     instantiate them at K = C (Coquelicot) with ph q = (cos (q theta), sin (q theta)) for every real
     theta (this is where the standard library's real-number axioms appear). *)
-From Qib Require Import Qubitization.EvtProofs Base.Inst.
+From Qib Require Import Qubitization.EvtProofs Qubitization.HistProofs Base.Inst.
 From Qib Require Qubitization.QubitReal.   (* complex numbers; names used qualified *)
-From Run Require Import GenQubitization.
+From Run Require Import GenQubitization GenQubitHist.
 Local Open Scope Z_scope.
 
 (* ------------------------------------------------------------------ bridges to the generated definitions *)
@@ -341,4 +341,175 @@ Example C19_instance :
   map (fun c => circuit_mx 4 (upow_q 0 u) (aux_circuit gen_aux 3) (false :: c) (false :: c)) (all_bits 3)
   = map (fun c => shift_spec u c c) (all_bits 3) /\
   evt_mat_word gen_evt_mat 5 = [LP 0; LU false; LP 1; LU true; LP 2; LU false; LP 3; LU true; LP 4; LU false].
+Proof. vm_compute. repeat split. Qed.
+
+(* ================================================================== histories / object lifetimes *)
+(** The statements above are about ONE getter call.  The ones below are about an object that is
+    used over time: any sequence of setter calls (set_theta, set_encoding_qubits,
+    set_auxiliary_qubits, set_method; set_theta_seq, ... for the eigenvalue transformation) and
+    getter calls (as_circuit, as_matrix).  [Run.GenQubitHist] is regenerated from the source:
+    the bodies of the setters ([gen_pcps_setters], [gen_evt_setters]) and whether the getters store
+    anything into the object or hand out an object they keep ([gen_pcps_getters],
+    [gen_evt_getters] : GFresh / GReuse).
+    Python hands out references: the model has a heap of value cells, a getter returns an address,
+    and what the caller holds at the END of a history is the content of these cells at the end
+    ([observed]).  [handed] is the reference semantics: the value of each getter call for the
+    parameters current at that call. *)
+Lemma gen_pcps_setters_ok : pcps_setters_ok gen_pcps_setters.
+Proof. intros s [t e a m]. destruct s as [q|ws|ws|b]; try destruct m; try destruct b; reflexivity. Qed.
+Lemma gen_evt_setters_ok : evt_setters_ok gen_pcps_setters gen_evt_setters.
+Proof. intros s st. destruct s; reflexivity. Qed.
+
+Notation pcps_set := (pset gen_pcps_setters).
+Notation pcps_view := (pview gen_cphase gen_aux).
+Notation evt_set := (eset gen_pcps_setters gen_evt_setters).
+Notation evt_view := (eview gen_cphase gen_aux gen_evt_mat gen_evt_circ).
+Notation evt_geff := (egeff gen_pcps_setters gen_evt_mat gen_evt_circ).
+
+(** 13. ProjectorControlledPhaseShift, ANY history: at the end the caller holds, in every circuit /
+    matrix it was ever handed, exactly what the getter returned at that call (the value for the
+    parameters current THEN); appending further calls (setters or getters) to a history leaves
+    what was handed out before unchanged.  Compiles only if the getters store nothing into the
+    object and return an object built in the call. *)
+Theorem C19_history_phase_shift_objects_keep_their_value :
+  forall (st0 : pstate) (cs cs' : list (call psetter pgetter)),
+    let I := kind_impl pcps_set pcps_view pgeff gen_pcps_getters in
+    let w0 := kind_start pcps_set pcps_view pgeff gen_pcps_getters st0 in
+    observed (irun I cs w0) = map Some (handed pcps_set pcps_view pgeff st0 cs) /\
+    observed (irun I (cs ++ cs') w0)
+    = observed (irun I cs w0) ++ map Some (handed pcps_set pcps_view pgeff (final pcps_set pgeff st0 cs) cs').
+Proof.
+  intros st0 cs cs' I w0. split;
+    [apply kind_fresh_observed|apply kind_fresh_earlier_unaffected]; reflexivity.
+Qed.
+Print Assumptions C19_history_phase_shift_objects_keep_their_value.
+
+(** 13a. (does not depend on the regenerated definitions) a getter that keeps the circuit it built,
+    overwrites its angle on the next call and hands out the same object again is expressible in
+    this model and is refuted by the history  as_circuit; set_theta; as_circuit. *)
+Theorem C19_history_caching_getter_refuted :
+  exists (st0 : pstate) (cs : list (call psetter pgetter)),
+    let I := kind_impl (pset ideal_pcps_setters) (pview ideal_cphase ideal_aux) pgeff GReuse in
+    observed (irun I cs (kind_start (pset ideal_pcps_setters) (pview ideal_cphase ideal_aux) pgeff GReuse st0))
+    <> map Some (handed (pset ideal_pcps_setters) (pview ideal_cphase ideal_aux) pgeff st0 cs).
+Proof.
+  exists {| ps_theta := (1 # 2)%Q; ps_enc := [1; 2]%nat; ps_aux := [0]%nat; ps_auxm := true |},
+         [CGet PGCircuit; CSet (SetTheta (3 # 4)%Q); CGet PGCircuit].
+  vm_compute. discriminate.
+Qed.
+Print Assumptions C19_history_caching_getter_refuted.
+
+Lemma pcanon_abs_gen_cphase st : ps_auxm st = false -> (1 <= length (ps_enc st))%nat ->
+  pcanon_abs gen_cphase gen_aux st = pcanon_abs ideal_cphase ideal_aux st.
+Proof. intros Hm Hn. unfold pcanon_abs, pcanon. rewrite Hm, (cphase_circuit_ok _ _ gen_cphase_ok Hn). reflexivity. Qed.
+Lemma pcanon_abs_gen_aux st : ps_auxm st = true ->
+  pcanon_abs gen_cphase gen_aux st = pcanon_abs ideal_cphase ideal_aux st.
+Proof. intros Hm. unfold pcanon_abs, pcanon. rewrite Hm, (aux_circuit_ok _ _ gen_aux_ok). reflexivity. Qed.
+
+(** 14. ... and that value is right: in ANY history, at every getter call the angle / the encoding
+    qubits are what the most recent set_theta / set_encoding_qubits said (initial values
+    otherwise), the circuit handed out is the circuit of THESE parameters (gates of the source
+    with absolute angles coefficient * theta, moved to the bound qubits), and on its canonical
+    wires it is exp(i theta (2|0..0><0..0| - 1)) for THAT theta (ph q = exp(i q): any
+    *-homomorphism (Q,+) -> unit-modulus elements; auxiliary method: on the auxiliary-|0> block,
+    auxiliary qubit returned to |0>). *)
+Theorem C19_history_phase_shift_circuit_of_every_call :
+  forall (K : Scalar) (L : ScalarLaws K) (ph : Q -> K), character ph ->
+  forall (st0 : pstate) (cs : list (call psetter pgetter)),
+    map (fun gp => ps_theta (snd gp)) (handed_states pcps_set pgeff st0 cs) = theta_trace (ps_theta st0) cs /\
+    map (fun gp => ps_enc (snd gp)) (handed_states pcps_set pgeff st0 cs) = enc_trace (ps_enc st0) cs /\
+    forall g st, In (g, st) (handed_states pcps_set pgeff st0 cs) ->
+      pcps_view PGCircuit st = PVCircuit (map (relabel_gate (pwire st)) (pcanon_abs gen_cphase gen_aux st)) /\
+      pcps_view PGMatrix st = PVMatrix (ps_theta st) (length (ps_enc st)) /\
+      (ps_auxm st = false -> (1 <= length (ps_enc st))%nat ->
+         meq (length (ps_enc st)) (circuit_mx (length (ps_enc st)) ph (pcanon_abs gen_cphase gen_aux st))
+             (shift_spec (ph (ps_theta st)))) /\
+      (ps_auxm st = true ->
+         blk0 (length (ps_enc st)) (circuit_mx (Datatypes.S (length (ps_enc st))) ph (pcanon_abs gen_cphase gen_aux st))
+              (shift_spec (ph (ps_theta st)))).
+Proof.
+  intros K L ph H st0 cs.
+  split; [apply pcps_theta_trace, gen_pcps_setters_ok|].
+  split; [apply pcps_enc_trace, gen_pcps_setters_ok|].
+  intros g st _. split; [reflexivity|]. split; [reflexivity|]. split.
+  - intros Hm Hn. rewrite pcanon_abs_gen_cphase by assumption. apply pcanon_abs_cphase; assumption.
+  - intros Hm. rewrite pcanon_abs_gen_aux by assumption. apply pcanon_abs_aux; assumption.
+Qed.
+Print Assumptions C19_history_phase_shift_circuit_of_every_call.
+
+(** 14a. over the complex numbers: ph q = exp(i q) *)
+Theorem C19_history_phase_shift_circuit_of_every_call_complex :
+  forall (st0 : pstate) (cs : list (call psetter pgetter)) g st,
+    In (g, st) (handed_states pcps_set pgeff st0 cs) ->
+      (ps_auxm st = false -> (1 <= length (ps_enc st))%nat ->
+         meq (K:=QubitReal.CK) (length (ps_enc st))
+             (circuit_mx (length (ps_enc st)) (QubitReal.expq Rdefinitions.R1) (pcanon_abs gen_cphase gen_aux st))
+             (shift_spec (QubitReal.expq Rdefinitions.R1 (ps_theta st)))) /\
+      (ps_auxm st = true ->
+         blk0 (K:=QubitReal.CK) (length (ps_enc st))
+              (circuit_mx (Datatypes.S (length (ps_enc st))) (QubitReal.expq Rdefinitions.R1) (pcanon_abs gen_cphase gen_aux st))
+              (shift_spec (QubitReal.expq Rdefinitions.R1 (ps_theta st)))).
+Proof.
+  intros st0 cs g st Hin.
+  destruct (C19_history_phase_shift_circuit_of_every_call QubitReal.CK QubitReal.CK_laws _
+              (QubitReal.expq_character Rdefinitions.R1) st0 cs) as (_ & _ & Hall).
+  destruct (Hall g st Hin) as (_ & _ & H1 & H2). split; assumption.
+Qed.
+Print Assumptions C19_history_phase_shift_circuit_of_every_call_complex.
+
+(** 15. EigenvalueTransformation, ANY history of set_theta_seq / set_encoding_qubits /
+    set_auxiliary_qubits / set_method / (the user's) processing.set_theta and as_matrix /
+    as_circuit / processing.as_circuit calls: same heap statement.  The getters of this class DO
+    change the shared phase-shift object (they leave its angle at the last angle used); this is
+    part of the model ([egeff]). *)
+Theorem C19_history_evt_objects_keep_their_value :
+  forall (st0 : estate) (cs cs' : list (call esetter egetter)),
+    let I := kind_impl evt_set evt_view evt_geff gen_evt_getters in
+    let w0 := kind_start evt_set evt_view evt_geff gen_evt_getters st0 in
+    observed (irun I cs w0) = map Some (handed evt_set evt_view evt_geff st0 cs) /\
+    observed (irun I (cs ++ cs') w0)
+    = observed (irun I cs w0) ++ map Some (handed evt_set evt_view evt_geff (final evt_set evt_geff st0 cs) cs').
+Proof.
+  intros st0 cs cs' I w0. split;
+    [apply kind_fresh_observed|apply kind_fresh_earlier_unaffected]; reflexivity.
+Qed.
+Print Assumptions C19_history_evt_objects_keep_their_value.
+
+(** 16. ... and in ANY history, at every getter call: the angle sequence is what the most recent
+    set_theta_seq said (the getters' own set_theta calls and the user's do not disturb it);
+    as_matrix is the product along the ALTERNATING word of that sequence, with the angle VALUES
+    current at the call, whatever the matrices of the phase shift (as a function of the angle)
+    and of the block encoding are; and neither as_matrix nor as_circuit depends on the angle the
+    shared phase-shift object happens to hold. *)
+Theorem C19_history_evt_matrix_of_every_call :
+  forall (st0 : estate) (cs : list (call esetter egetter)),
+    map (fun x => es_seq (snd x)) (handed_states evt_set evt_geff st0 cs) = seq_trace (es_seq st0) cs /\
+    forall g st, In (g, st) (handed_states evt_set evt_geff st0 cs) -> (1 <= length (es_seq st))%nat ->
+      let len := Z.of_nat (length (es_seq st)) in
+      evt_view EGMatrix st = EVMatrix (vword (es_seq st) (alt_word len)) (length (ps_enc (es_proc st))) /\
+      (forall (K : Scalar) (n : nat) (P : Q -> BMx K) (U Ui : BMx K),
+          vword_mx n P U Ui (vword (es_seq st) (evt_mat_word gen_evt_mat len))
+          = word_mx n (fun k => P (angle_at (es_seq st) k)) U Ui (alt_word len)) /\
+      (forall t g', g' <> EGProcCircuit ->
+          evt_view g' (upd_proc (upd_theta t (es_proc st)) st) = evt_view g' st).
+Proof.
+  intros st0 cs. split; [apply evt_seq_trace, gen_evt_setters_ok|].
+  intros g st _ Hl len. split; [|split].
+  - cbn [eview]. unfold len. rewrite (vword_alt _ _ gen_evt_mat_ok Hl). reflexivity.
+  - intros K n P U Ui. rewrite vword_mx_word. unfold len.
+    rewrite C19_evt_matrix_word_is_alternating by lia. reflexivity.
+  - intros t g' Hg. apply eview_independent_of_processing_theta. exact Hg.
+Qed.
+Print Assumptions C19_history_evt_matrix_of_every_call.
+
+(** non-vacuity: a history with every setter, evaluated *)
+Example C19_history_instance :
+  let st0 := {| ps_theta := (1 # 2)%Q; ps_enc := [1; 2]%nat; ps_aux := [0]%nat; ps_auxm := true |} in
+  let cs := [CGet PGCircuit; CSet (SetTheta (3 # 4)%Q); CGet PGCircuit; CSet (SetEnc [2; 0]%nat); CSet (SetAux [1]%nat);
+             CGet PGCircuit; CSet (SetMethod false); CGet PGCircuit; CGet PGMatrix] in
+  theta_trace (ps_theta st0) cs = [(1 # 2); (3 # 4); (3 # 4); (3 # 4); (3 # 4)]%Q /\
+  nth_error (handed pcps_set pcps_view pgeff st0 cs) 2
+  = Some (PVCircuit [GMCX [(2, false); (0, false)]%nat 1; GRz (3 # 2) 1; GMCX [(2, false); (0, false)]%nat 1]) /\
+  nth_error (handed pcps_set pcps_view pgeff st0 cs) 3
+  = Some (PVCircuit [GRz (- (3 # 4)) 2; GCRz [(2%nat, false)] (- (3 # 2)) 0; GPhase (- (3 # 8)) [2; 0]%nat]).
 Proof. vm_compute. repeat split. Qed.
